@@ -34,6 +34,7 @@ class GenericResource(Resource):
         }
         if isinstance(value, str) and value in existing_resource_types and cls._strict:
             raise ValueError(f"Instantiation of GenericResource from {value} in {values} not allowed")
-        else:
+        elif value is None or isinstance(value, str):
+            # Anything else is rejected by the field's own validation: it is not rendered into a log message first
             logger.warning(f"Instantiation of GenericResource from {value} in {values}")
         return value
